@@ -38,10 +38,16 @@ def sinks(ctx: Ctx) -> List[Sink]:
         return memo
     out: List[Sink] = []
     prog = ctx.prog
+    from .c05 import family as _hasher_family
+    try:
+        fam = {g.qname for g in _hasher_family(ctx)}
+    except Exception:
+        fam = set()
     for f in prog.funcs.values():
         if f.module.name not in ANALYSIS_MODULES:
             continue
-        in_hash_module = f.module.name == "dds.fun_args" and (f.qname.startswith("dds.fun_args.dds_hash") or f.name.startswith("_algo"))
+        # the value hasher digests the *content* of the value it is given (its own digest calls are not signature sinks)
+        in_hash_module = f.module.name == "dds.fun_args" and (f.qname.startswith("dds.fun_args.dds_hash") or f.name.startswith("_algo") or f.qname in fam)
         for n in f.own_nodes():
             if not isinstance(n, ast.Call):
                 continue
